@@ -26,7 +26,7 @@ func main() {
 	twin.Rekey = rekey
 	twin.RunAll(r, nil, func(c twin.Case, n, i twin.Obs) string { return c.Name }, opt, par.Opts{})
 	r.Set("exhaustive", true)
-	r.Set("rule", "full product: defer stacks (<=2 of 19 kinds) x 13 endings (explicit panics of 4 value types + 8 run-time faults + return) x main recovers or not, at call depth 2; depth 3 with the stacks split over f and g; after every program Eval(\"after(20)\") must still work; non-trivial = output lines not all equal")
+	r.Set("rule", "full product: defer stacks (<=2 of 19 kinds) x 13 endings (explicit panics of 4 value types + 8 run-time faults + return) x main recovers or not, at call depth 2; depth 3 with the stacks split over f and g; family R: one or two of 8 defer kinds repeated at 3 depths of a recursion x all endings; after every program Eval(\"after(20)\") must still work; non-trivial = output lines not all equal")
 	r.Finish()
 }
 
@@ -50,6 +50,25 @@ func rekey(name, key string, failing map[string]bool) string {
 
 func reductions(name string) []string {
 	parts := strings.Split(name, "|")
+	if strings.HasPrefix(name, "R:") {
+		// recursion family: drop the second defer, then the simplest ending / main
+		var out []string
+		ab := strings.SplitN(parts[0][2:], "+", 2)
+		if len(ab) == 2 && ab[1] != "-" {
+			out = append(out, "R:"+ab[0]+"+-|"+parts[1]+"|"+parts[2], "R:"+ab[1]+"+-|"+parts[1]+"|"+parts[2])
+		}
+		for _, simple := range []string{"ret", "panicstr"} {
+			if parts[1] != simple && !(simple == "panicstr" && parts[1] == "ret") {
+				out = append(out, parts[0]+"|"+simple+"|"+parts[2])
+			}
+		}
+		if parts[2] != "main:rec" {
+			out = append(out, parts[0]+"|"+parts[1]+"|main:rec")
+		}
+		// what fails without any recursion or defer is not a finding of this family
+		out = append(out, "f:-|"+parts[1]+"|"+parts[2], "f:-|panicstr|"+parts[2])
+		return out
+	}
 	var out []string
 	for pi, p := range parts {
 		if !(strings.HasPrefix(p, "f:") || strings.HasPrefix(p, "g:")) {
